@@ -41,6 +41,8 @@ pub struct Stats {
     pub trace: bool,
     pub samples: Vec<Value>,
     pub cur_nontrivial: bool,
+    /// strict mode: known-finding exemptions are disabled (used when replaying known findings)
+    pub strict: bool,
     pub exhaustive_scopes: Vec<String>,
 }
 impl Stats {
@@ -117,7 +119,7 @@ pub trait JobT: Send + Sync {
     fn label(&self) -> String;
     fn run(&self, seed: u64, tier_scale: f64) -> JobResult;
     /// re-execute a saved input; Ok(rendering) if it passes, Err(failure) otherwise
-    fn replay(&self, input: &Value) -> Result<Value, JobFailure>;
+    fn replay(&self, input: &Value, strict: bool) -> Result<Value, JobFailure>;
 }
 
 pub type CaseFn<T> = Arc<dyn Fn(&T, &mut Stats) -> Result<(), Fail> + Send + Sync>;
@@ -207,9 +209,10 @@ impl<T: Clone + std::fmt::Debug + Hash + Serialize + DeserializeOwned + Send + S
         }
     }
 
-    fn failure_of(&self, t: &T) -> Option<JobFailure> {
+    fn failure_of(&self, t: &T, strict: bool) -> Option<JobFailure> {
         let mut scratch = Stats::default();
         scratch.trace = true;
+        scratch.strict = strict;
         match run_case(&self.f, t, &mut scratch) {
             Ok(()) => None,
             Err(e) => Some(JobFailure {
@@ -245,7 +248,7 @@ impl<T: Clone + std::fmt::Debug + Hash + Serialize + DeserializeOwned + Send + S
         for (s, f) in results {
             stats.absorb(s);
             if let Some((t, _reason)) = f {
-                if let Some(jf) = self.failure_of(&t) {
+                if let Some(jf) = self.failure_of(&t, false) {
                     // keep the smallest rendering
                     let size = jf.input.to_string().len();
                     if failure.as_ref().map(|o| o.input.to_string().len() > size).unwrap_or(true) {
@@ -265,7 +268,7 @@ impl<T: Clone + std::fmt::Debug + Hash + Serialize + DeserializeOwned + Send + S
         }
         JobResult { label: self.label.clone(), stats, failure, degenerate }
     }
-    fn replay(&self, input: &Value) -> Result<Value, JobFailure> {
+    fn replay(&self, input: &Value, strict: bool) -> Result<Value, JobFailure> {
         let t: T = serde_json::from_value(input.clone()).map_err(|e| JobFailure {
             label: self.label.clone(),
             input: input.clone(),
@@ -273,11 +276,12 @@ impl<T: Clone + std::fmt::Debug + Hash + Serialize + DeserializeOwned + Send + S
             detail: Value::Null,
             rendering: Value::Null,
         })?;
-        match self.failure_of(&t) {
+        match self.failure_of(&t, strict) {
             Some(f) => Err(f),
             None => {
                 let mut scratch = Stats::default();
                 scratch.trace = true;
+                scratch.strict = strict;
                 let _ = run_case(&self.f, &t, &mut scratch);
                 Ok(scratch.samples.pop().unwrap_or(Value::Null))
             }
@@ -332,7 +336,7 @@ impl JobT for EJob {
         }
         JobResult { label: self.label.clone(), stats, failure, degenerate: Vec::new() }
     }
-    fn replay(&self, input: &Value) -> Result<Value, JobFailure> {
+    fn replay(&self, input: &Value, _strict: bool) -> Result<Value, JobFailure> {
         // exhaustive jobs are deterministic: re-run everything (quick scope)
         let r = self.run(0, 1.0);
         match r.failure {
@@ -418,7 +422,7 @@ pub fn run_property(p: &Property, tier: &str, seed: u64, verif_dir: &str, only_j
             let v: Value = serde_json::from_str(&text).expect("replay file malformed");
             let label = v["job"].as_str().unwrap_or("");
             if let Some(j) = p.jobs.iter().find(|j| j.label() == label) {
-                match j.replay(&v["input"]) {
+                match j.replay(&v["input"], true) {
                     Err(f) => known_lines.push(format!("KNOWN-FINDING: property={} class={} {} [{}]", p.id, k.class, k.what, first_line(&f.msg))),
                     Ok(_) => { /* no longer violates: nothing printed, nothing suppressed */ }
                 }
@@ -536,7 +540,8 @@ pub fn replay_file(p: &Property, path: &str) -> i32 {
         eprintln!("unknown job '{label}'");
         return 2;
     };
-    match j.replay(&v["input"]) {
+    let strict = v["strict"].as_bool().unwrap_or(false);
+    match j.replay(&v["input"], strict) {
         Ok(r) => {
             println!("replay passes: property {} holds on this input", p.id);
             println!("{}", serde_json::to_string_pretty(&r).unwrap());
